@@ -56,6 +56,66 @@ CHECKS = {
              'failures never cached.',
         design='5/C17', technique='deterministic simulation: storage-node (cache) fault injection, cached world vs uncached twin world',
         note='Legal cache faults only (a cache may forget, never lie); tree identity not demanded.'),
+    'C02': dict(
+        category='exploration',
+        text='Seeded obtain-store-reuse histories over a persistent plain-data names mapping: entries of the LIVE function '
+             'table (all of them) applied to names incl. earlier results, literals, attribute-/format-like strings, builtins '
+             'and lambdas, dotted %names%, signature-derived argument lists; monitor = plain-data type walk of every node '
+             'evaluation result, final result and names; I/O seam = audit hook armed only while eval runs (3% of runs on a '
+             'really fresh SqParser). The I/O seam and the history are simulation; the quantifier over all builtins x '
+             'arguments is sampled by the generator.',
+        design='5/C02', technique='deterministic simulation: I/O seam (audit hook) + always-on type-walk monitor over obtain-store-reuse histories',
+        note='Lazy imports inside third-party/stdlib code are recorded not judged; classes exposed as builtins are left '
+             'unwrapped by the monitors so that what a program can do with the class object stays visible.'),
+    'C04': dict(
+        category='exploration',
+        text='Seeded chains of single-statement evals rewriting persistent numeric variables of every host-suppliable type '
+             '(int, long int, bool, float, Decimal with exponents up to +-5000 / 40-digit coefficients): operators, compound '
+             'and compound-index assignment, numeric builtins; per operation digits(result) <= max(28, 1 + widest operand), '
+             '* / ** / *= return Decimal or raise, never repeat str/list; a monitor checks every numeric builtin call. Four '
+             'sites (int/floor/ceil/round on a Decimal with positive exponent) are listed known findings.',
+        design='5/C04', technique='deterministic simulation: chain invariant over persistent host-typed state with a builtin-call monitor',
+        note='Operand-pair coverage is input generation; float results count as <= 17 digits; exponents capped so a violating tree terminates.'),
+    'C05': dict(
+        category='other',
+        text='PARTIAL. The timeout wiring of every builtin call that reaches the regex engine is checked under a virtual '
+             'clock over seeded call histories (call / method / pipe / inside lambdas, flags, adversarial and long subjects, '
+             'virtual time passing inside an evaluation): every engine entry must carry 0 < timeout <= 0.1 s + 5e-6 s/char and '
+             'one builtin call may be charged at most 0.25 s + 1e-5 s/char. The engine is trusted to honour timeout=; its '
+             'compile phase has none (listed known finding, confirmed by a bounded real probe that cannot raise new alarms).',
+        design='5/C05', technique='deterministic simulation: virtual clock behind the regex and time seams (engine stubbed for timing)',
+        note='The real timeout clock is clock() inside _regex.c and cannot be put behind a Python seam: level "other".'),
+    'C13': dict(
+        category='exploration',
+        text='Every non-mutator of the LIVE function table applied (call/method/pipe, alone and in pipelines, with pure '
+             'lambdas) to lists, dicts, nested and host-supplied containers incl. a defaultdict/OrderedDict over seeded '
+             'histories; a monitor snapshots (structure + identity) every argument of every builtin call before and after, '
+             'and the host compares all its objects before/after each mutator-free eval.',
+        design='5/C13', technique='deterministic simulation: always-on argument-snapshot monitor around every builtin, host-side before/after comparison',
+        note='An index read on a host mapping whose own __missing__ stores (defaultdict) is the host type\'s doing and skipped.'),
+    'C16': dict(
+        category='exploration',
+        text='Seeded histories of failing parse/eval/list_names calls on one parser whose failure kind is injected by '
+             'construction (every listed language-level failure at many syntactic positions, incl. lambda bodies, long '
+             'tokens, per-call names mappings) plus arbitrary Unicode, and scripted REPL sessions as whole programs; (a) '
+             'nothing but Exceptions escapes, (b) listed failures are ParserError, (c) the REPL survives and returns 0.',
+        design='5/C16', technique='deterministic simulation: by-construction failure injection on a long-lived parser and a scripted REPL session',
+        note='(b) is a statement over inputs; the classification is by construction, not by a second parser.'),
+    'C18': dict(
+        category='exploration',
+        text='Seeded histories on one parser (optionally with a parse cache): list_names over token soups and rendered '
+             'programs whose identifiers are known by construction, lexical errors after k names (incl. unclosed %), '
+             'generators abandoned midway, failing parses, the same text again; evals under a recording names mapping must '
+             'only ask for names list_names reports (plus the implicit sugar names).',
+        design='5/C18', technique='deterministic simulation: recording names mapping + generator-abandonment / stale-lexer faults, names known by construction',
+        note='Lazy or eager lexing both satisfy the failure side.'),
+    'C19': dict(
+        category='exploration',
+        text='rand() / rand(a,b) / rand(list) / shuffle(list) drawn 50-500 times per input under a scripted entropy source '
+             '(seeded stream or finite extreme prefix) with the real stdlib algorithms; range, integrality, endpoint coverage '
+             'for narrow ranges, membership by identity, permutation by identity, new-list and argument preservation.',
+        design='5/C19', technique='deterministic simulation: entropy seam (scripted bit source under the real stdlib random algorithms)',
+        note='Bounds up to 34 significant digits, host int / bool / Decimal and literal forms; which element is picked is not judged.'),
     'C07': dict(
         category='exploration',
         text='Seeded search over histories of eval calls on one parser and one persistent host names mapping; every '
